@@ -460,7 +460,8 @@ fn parse_qualified_rule(input: &mut StepParser, ss: &mut StyleSheetTransformer) 
     if ss.options.convert_host {
         let r = input.try_parse::<_, _, ParseError<()>>(|input| {
             input.expect_colon()?;
-            let Ok(next) = input.next() else {
+            // `: host` (whitespace after the colon) is not the `:host` pseudo-class
+            let Ok(next) = input.next_including_whitespace() else {
                 return Ok(());
             };
             let mut invalid = match &*next {
